@@ -187,6 +187,8 @@ def show(n, depth=0):
         return show(c[0], d) if c else ''
     if k == 'CXXThisExpr':
         return 'this'
+    if k == 'CXXNullPtrLiteralExpr':
+        return 'nullptr'
     if k in ('DeclRefExpr', 'UnresolvedLookupExpr', 'DependentScopeDeclRefExpr'):
         return (n.get('qual', '') or '') + (n.get('n') or '?')
     if k in MEMBER_KINDS:
